@@ -11,7 +11,7 @@
 (*                          optionally labels such as gen_seq -label)      *)
 (*   c.edges   Seq([a, b, lt])  residue graph, lt = linktype ("" = none)   *)
 (*   c.blocks  record resname -> [atoms: Seq(attribute record),            *)
-(*                                inters: Seq([kind, atoms, par, ver, edge])]*)
+(*                inters: Seq([kind, atoms, par, ver, edge]) (, xedges)]   *)
 (*   c.links   Seq(link) in definition order, link =                       *)
 (*     [orders: Seq([kind, v]),                                            *)
 (*      atoms:  Seq([oi, sel, rep, del])    oi = index into orders,        *)
@@ -42,6 +42,8 @@ CONSTANTS Cases,           \* set of cases explored by the model
           DevNoPattern,    \* deviation: [ patterns ] veto removed
           DevKeepRemoved,  \* deviation: interactions touching removed atoms are written       (m03)
           DevF13,          \* deviation (finding F13, repaired): residue attributes missing on the atoms of the first residue
+          DevVerKey,       \* deviation (finding, open): WriteBack also drops every interaction whose VERSION number equals the node key of a removed atom
+          DevDangEnd,      \* deviation: a dangling interaction is also expected in windows that stick out of the chain end
           DevDegree        \* deviation (C10): degree filter of find_connecting_edges compares the wrong way (m12)
 
 VARIABLES case, st
@@ -86,7 +88,9 @@ MolAttr0(c, at) == BlockOf(c, at[1]).atoms[at[2]]            \* node attributes 
 FragAttr(c, at) == Overlay(MolAttr0(c, at), c.rattr[at[1]])  \* node attributes of meta_molecule.nodes[r]["graph"]
 FirstRes(c) == CHOOSE r \in Rs(c) : \A s \in Rs(c) : c.resid[r] <= c.resid[s]
 EdgePairs(x) == IF x.edge THEN { {x.atoms[j], x.atoms[j + 1]} : j \in 1..(Len(x.atoms) - 1) } ELSE {}
-BlockEdgesOf(c, r) == UNION { { {<<r, a>> : a \in p} : p \in EdgePairs(BlockOf(c, r).inters[q]) } : q \in DOMAIN BlockOf(c, r).inters }
+\* edges of a block: consecutive atoms of its edge-making interactions, plus (for blocks projected from real objects) explicit ones
+BlockEdgesOf(c, r) == (UNION { { {<<r, a>> : a \in p} : p \in EdgePairs(BlockOf(c, r).inters[q]) } : q \in DOMAIN BlockOf(c, r).inters })
+                      \cup (IF "xedges" \in DOMAIN BlockOf(c, r) THEN { {<<r, BlockOf(c, r).xedges[j][1]>>, <<r, BlockOf(c, r).xedges[j][2]>>} : j \in DOMAIN BlockOf(c, r).xedges } ELSE {})
 BlockEdges(c) == UNION {BlockEdgesOf(c, r) : r \in Rs(c)}
 BlockInts(c) == UNION { { [kind |-> BlockOf(c, r).inters[q].kind, atoms |-> [j \in DOMAIN BlockOf(c, r).inters[q].atoms |-> <<r, BlockOf(c, r).inters[q].atoms[j]>>],
                            ver |-> BlockOf(c, r).inters[q].ver, par |-> BlockOf(c, r).inters[q].par, li |-> 0] : q \in DOMAIN BlockOf(c, r).inters } : r \in Rs(c) }
@@ -122,6 +126,23 @@ ResNamesOK(c, l, phi) == \A i \in 1..NOrd(l) : HasCommonRn(l, i) => InSeq(c.ratt
 OrderOK(c, l, phi) == \A i, j \in 1..NOrd(l) : i # j => MatchOrder(l.orders[i], c.resid[phi[i]], l.orders[j], c.resid[phi[j]])
 \* the residue-level match: what the user calls "residues connected as in the link's residue pattern, with matching names and labels"
 ResMatch(c, l, phi) == Injective(l, phi) /\ Induced(c, l, phi) /\ LabelsOK(c, l, phi) /\ ResNamesOK(c, l, phi)
+\* all residue-level matches of a link.  (Evaluation note: the pattern of the link and the adjacency of the residue graph are tabulated
+\* once - TLCEval - and the definitions above are applied through the tables; ResMatchesAgree states that this is the same set.)
+PatTable(l) == TLCEval([edge |-> { p \in (1..NOrd(l)) \X (1..NOrd(l)) : p[1] < p[2] /\ PEdge(l, p[1], p[2]) },
+                        lab |-> [p \in { q \in (1..NOrd(l)) \X (1..NOrd(l)) : q[1] < q[2] /\ PEdge(l, q[1], q[2]) } |-> PLab(l, p[1], p[2])],
+                        rn |-> [i \in 1..NOrd(l) |-> IF HasCommonRn(l, i) THEN CommonRn(l, i) ELSE <<>>]])
+ResTable(c) == TLCEval([p \in Rs(c) \X Rs(c) |-> IF REdge(c, p[1], p[2]) THEN <<RLab(c, p[1], p[2])>> ELSE <<>>])
+ResMatches(c, l, mono, nolabel) ==
+  LET pt == PatTable(l)
+      rt == ResTable(c)
+      k == NOrd(l)
+  IN { phi \in Maps(c, l) :
+         /\ \A i, j \in 1..k : i < j =>
+               /\ phi[i] # phi[j]
+               /\ IF <<i, j>> \in pt.edge THEN rt[<<phi[i], phi[j]>>] # <<>> /\ (nolabel \/ rt[<<phi[i], phi[j]>>][1] = pt.lab[<<i, j>>])
+                                         ELSE mono \/ rt[<<phi[i], phi[j]>>] = <<>>
+         /\ \A i \in 1..k : pt.rn[i] # <<>> => InSeq(c.rattr[phi[i]].resname, pt.rn[i]) }
+ResMatchesAgree(c) == \A q \in DOMAIN c.links : ResMatches(c, c.links[q], FALSE, FALSE) = { m \in Maps(c, c.links[q]) : ResMatch(c, c.links[q], m) }
 
 (* ------------------------------------------------------------------ *)
 (* atom selection                                                      *)
@@ -154,6 +175,10 @@ RepImg(l, iv) == { <<iv[b], l.atoms[b].rep>> : b \in RepAtoms(l) }
 ApplyReps(c, attr, reps) == TLCEval([at \in Atoms(c) |-> IF \E rp \in reps : rp[1] = at THEN Overlay(attr[at], (CHOOSE rp \in reps : rp[1] = at)[2]) ELSE attr[at]])
 Key(x) == <<x.kind, x.atoms, x.ver>>
 Touches(x, S) == \E j \in DOMAIN x.atoms : x.atoms[j] \in S
+\* node key of an atom in molecule.nodes: blocks are appended in residue-id order, keys count from 0
+NodeKey(c, at) == Cardinality(UNION {AtomsOf(c, r) : r \in {q \in Rs(c) : c.resid[q] < c.resid[at[1]]}}) + at[2] - 1
+\* what the write-back loop drops; verkey = the loop tests the members of the dictionary key (atoms..., version) instead of the atoms
+Dropped(c, x, rm, verkey) == Touches(x, rm) \/ (verkey /\ x.ver \in {NodeKey(c, at) : at \in rm})
 
 (* ------------------------------------------------------------------ *)
 (* P-layer                                                             *)
@@ -171,15 +196,18 @@ V0(c) == [edges |-> BlockEdges(c), attr |-> TLCEval([at \in Atoms(c) |-> MolAttr
 \* links are considered in definition order; all matches of one link are judged on the molecule as the earlier links left it
 PStep(c, acc, k) ==
   LET l  == c.links[k]
-      J  == { LET iv == ImgVec(c, l, phi) IN [phi |-> phi, iv |-> iv, out |-> Outcome(c, l, phi, iv, acc.V)] : phi \in { m \in Maps(c, l) : ResMatch(c, l, m) } }
+      J  == { LET iv == ImgVec(c, l, phi) IN [phi |-> phi, iv |-> iv, out |-> Outcome(c, l, phi, iv, acc.V)] : phi \in ResMatches(c, l, FALSE, FALSE) }
       A  == { j \in J : j.out = "applied" }
-  IN [V |-> [edges |-> acc.V.edges \cup UNION { EdgeImg(l, j.iv) : j \in A },
-             attr  |-> ApplyReps(c, acc.V.attr, UNION { RepImg(l, j.iv) : j \in A })],
+      V2 == [edges |-> acc.V.edges \cup UNION { EdgeImg(l, j.iv) : j \in A },
+             attr  |-> ApplyReps(c, acc.V.attr, UNION { RepImg(l, j.iv) : j \in A })]
+  IN [V |-> V2,
       app |-> acc.app \cup { [li |-> k, phi |-> j.phi, iv |-> j.iv] : j \in A },
       \* the attempts: every residue-level match of a link that names at least one residue name of the molecule
-      calls |-> acc.calls \cup { [li |-> k, phi |-> j.phi, out |-> j.out] : j \in IF Prefilter(c, l) THEN J ELSE {} }]
+      calls |-> acc.calls \cup { [li |-> k, phi |-> j.phi, out |-> j.out] : j \in IF Prefilter(c, l) THEN J ELSE {} },
+      \* domain: the link's own effects do not change the outcome of its own vetoes (else the order of its matches would matter)
+      stable |-> acc.stable /\ \A j \in J : Outcome(c, l, j.phi, j.iv, V2) = j.out]
 RECURSIVE PFold(_, _)
-PFold(c, k) == IF k = 0 THEN [V |-> V0(c), app |-> {}, calls |-> {}] ELSE PStep(c, PFold(c, k - 1), k)
+PFold(c, k) == IF k = 0 THEN [V |-> V0(c), app |-> {}, calls |-> {}, stable |-> TRUE] ELSE PStep(c, PFold(c, k - 1), k)
 PEnd(c) == PFold(c, Len(c.links))
 
 \* atoms removed by `replace atomname null` of an applicable link
@@ -187,9 +215,10 @@ PRemoved(c, app) == UNION { DelImg(c.links[x.li], x.iv) : x \in app }
 AllLinkInts(c, app) == UNION { IntImg(c.links[x.li], x.li, x.iv) : x \in app }
 \* for each (kind, atoms, version) the interaction of the applicable (link, phi) with the largest definition index; block interactions
 \* (index 0) survive where no link defines the same key; interactions touching a removed atom disappear with it
-PInts(c, app) == LET all == BlockInts(c) \cup AllLinkInts(c, app)
-                     rm  == PRemoved(c, app)
-                 IN { x \in all : (\A y \in all : Key(y) = Key(x) => y.li <= x.li) /\ ~Touches(x, rm) }
+PIntsW(c, app, verkey) == LET all == BlockInts(c) \cup AllLinkInts(c, app)
+                              rm  == PRemoved(c, app)
+                          IN { x \in all : (\A y \in all : Key(y) = Key(x) => y.li <= x.li) /\ ~Dropped(c, x, rm, verkey) }
+PInts(c, app) == PIntsW(c, app, FALSE)
 StripLi(S) == { [kind |-> x.kind, atoms |-> x.atoms, ver |-> x.ver, par |-> x.par] : x \in S }
 Final(c, V, ints, rm, calls) ==
   [ints |-> StripLi(ints),
@@ -208,6 +237,7 @@ NoTiesE(c, e) == LET all == AllLinkInts(c, e.app)
                     /\ \A x, y \in e.app : x.li = y.li =>
                           \A rp \in RepImg(c.links[x.li], x.iv), rq \in RepImg(c.links[y.li], y.iv) : rp[1] = rq[1] => rp[2] = rq[2]
 NoTies(c) == NoTiesE(c, PEnd(c))
+Stable(c) == PEnd(c).stable
 \* stated domain: every link atom carries a residue name (link-wide or per atom)
 InDomain(c) == \A k \in DOMAIN c.links : \A a \in DOMAIN c.links[k].atoms : "resname" \in DOMAIN c.links[k].atoms[a].sel
 
@@ -222,13 +252,49 @@ ResConnected(c, E, rm) == LET live == {r \in Rs(c) : AtomsOf(c, r) \ rm # {}}
                           IN live = {} \/ (LET r0 == CHOOSE r \in live : TRUE IN Reach({r0}, RE, c.n) \cap live = live)
 
 (* ------------------------------------------------------------------ *)
+(* dangling interactions of a monomer .itp (polyply_parser.py)         *)
+(* ------------------------------------------------------------------ *)
+\* b.dang = Seq([kind, idx, par]): interactions of the block that refer to atom indices (0-based) beyond the block, in file order.
+\* They are DEFINED as links: order = index div natoms, atom = index mod natoms with all attributes of that block atom;
+\* consecutive entries on identical atoms form one link and get versions n..1, any other repeat is a separate, later link.
+RECURSIVE DangGroups(_, _)
+DangGroups(d, from) == IF from > Len(d) THEN <<>>
+                       ELSE LET upto == CHOOSE e \in from..Len(d) : /\ \A j \in from..e : d[j].idx = d[from].idx
+                                                                     /\ (e = Len(d) \/ d[e + 1].idx # d[from].idx)
+                            IN <<[lo |-> from, hi |-> upto]>> \o DangGroups(d, upto + 1)
+ItpLink(b, grp) ==
+  LET n == Len(b.atoms)
+      idx == b.dang[grp.lo].idx
+      gl == SetToSortSeq({idx[j] : j \in DOMAIN idx}, <)                \* distinct referenced global indices
+      os == SetToSortSeq({idx[j] \div n : j \in DOMAIN idx}, <)         \* orders that occur
+      posOf(x) == CHOOSE p \in DOMAIN gl : gl[p] = x
+  IN [orders |-> [p \in DOMAIN os |-> O("num", os[p])],
+      atoms |-> [p \in DOMAIN gl |-> [oi |-> CHOOSE q \in DOMAIN os : os[q] = gl[p] \div n,
+                                       sel |-> [k \in DOMAIN b.atoms[(gl[p] % n) + 1] |-> <<b.atoms[(gl[p] % n) + 1][k]>>],
+                                       rep |-> <<>>, del |-> FALSE]],
+      inters |-> [j \in 1..(grp.hi - grp.lo + 1) |-> [kind |-> b.dang[grp.lo + j - 1].kind, atoms |-> [q \in DOMAIN idx |-> posOf(idx[q])],
+                                                     par |-> b.dang[grp.lo + j - 1].par, ver |-> (grp.hi - grp.lo + 1) - j + 1, edge |-> TRUE]],
+      xedges |-> <<>>, nonedges |-> <<>>, patterns |-> <<>>]
+ItpLinksOf(b) == LET gs == DangGroups(b.dang, 1) IN [g \in DOMAIN gs |-> ItpLink(b, gs[g])]
+\* "present for every window that fits inside the chain, absent at its end": on a linear chain of L copies of block b with residue ids
+\* 1..L the link-made interactions are exactly the images of every dangling entry at every start residue s with s + (highest order) <= L
+\* (entries whose orders are contiguous 0..k; for identical (kind, atoms, version) the entry of the later link counts)
+DangContiguous(b) == \A j \in DOMAIN b.dang : LET n == Len(b.atoms)  os == {b.dang[j].idx[q] \div n : q \in DOMAIN b.dang[j].idx} IN
+                        /\ os = 0..(CHOOSE m \in os : \A x \in os : x <= m)
+                        /\ \A q \in 1..(Len(b.dang[j].idx) - 1) : (b.dang[j].idx[q] \div n) - (b.dang[j].idx[q + 1] \div n) \in {-1, 0, 1}
+Windows(b, L) ==
+  LET n == Len(b.atoms)
+      gs == DangGroups(b.dang, 1)
+      ent == UNION { { [g |-> g, kind |-> b.dang[j].kind, idx |-> b.dang[j].idx, par |-> b.dang[j].par, ver |-> gs[g].hi - j + 1] : j \in gs[g].lo..gs[g].hi } : g \in DOMAIN gs }
+      win == { e \in ent : \A f \in ent : (f.kind = e.kind /\ f.idx = e.idx /\ f.ver = e.ver) => f.g <= e.g }
+      top(e) == CHOOSE m \in {e.idx[q] \div n : q \in DOMAIN e.idx} : \A q \in DOMAIN e.idx : e.idx[q] \div n <= m
+  IN UNION { { [kind |-> e.kind, atoms |-> [q \in DOMAIN e.idx |-> <<s + (e.idx[q] \div n), (e.idx[q] % n) + 1>>], ver |-> e.ver, par |-> e.par] : s \in 1..(IF DevDangEnd THEN L ELSE L - top(e)) } : e \in win }
+
+(* ------------------------------------------------------------------ *)
 (* I-layer: ApplyLinks.run_molecule step by step                       *)
 (* ------------------------------------------------------------------ *)
 \* GraphMatcher(meta_molecule, res_link, node_match=_res_match, edge_match=_linktype_match).subgraph_isomorphisms_iter()
-GMMatches(c, l) == { phi \in Maps(c, l) : /\ Injective(l, phi)
-                                          /\ (IF DevMono THEN Mono(c, l, phi) ELSE Induced(c, l, phi))
-                                          /\ (DevNoLinktype \/ LabelsOK(c, l, phi))
-                                          /\ ResNamesOK(c, l, phi) }
+GMMatches(c, l) == ResMatches(c, l, DevMono, DevNoLinktype)
 ISelSet(c, l, phi, a) == SelSetW(c, l, phi, a, DevF13)
 IMin(S) == CHOOSE i \in S : \A j \in S : i <= j
 \* match_link_and_residue_atoms: exactly one atom per link atom (with DevAmbig: the first of several)
@@ -271,7 +337,7 @@ EndLink == /\ st.pc = "match" /\ st.todo = {}
 \* remove scheduled nodes, write the dictionary back skipping interactions that touch them
 WriteBack == /\ st.pc = "write"
              /\ st' = [st EXCEPT !.pc = "missing",
-                                 !.final = Final(case, st.V, { x \in st.dict : DevKeepRemoved \/ ~Touches(x, st.rm) }, st.rm, st.calls)]
+                                 !.final = Final(case, st.V, { x \in st.dict : DevKeepRemoved \/ ~Dropped(case, x, st.rm, DevVerKey) }, st.rm, st.calls)]
              /\ UNCHANGED case
 \* find_missing_edges: candidate atoms are those whose degree in their fragment graph differs from their degree in the molecule;
 \* fragment graphs hold no edges except the one of the first residue, which is a copy of its block
@@ -284,7 +350,9 @@ IMissing(c, E, rm) ==
 FindMissing == /\ st.pc = "missing"
                /\ st' = [st EXCEPT !.pc = "done", !.missing = IMissing(case, st.final.edges, st.final.removed)]
                /\ UNCHANGED case
-Next == BeginLink \/ (\E phi \in st.todo : TryMatch(phi)) \/ EndLink \/ WriteBack \/ FindMissing
+\* the order in which the matches of one link are tried is not under the code's control (GraphMatcher iteration order)
+TryAny == \E phi \in st.todo : TryMatch(phi)
+Next == BeginLink \/ TryAny \/ EndLink \/ WriteBack \/ FindMissing
 Spec == Init /\ [][Next]_vars
 
 (* ---- I-layer |= P-layer *)
